@@ -376,6 +376,9 @@ class Externals(object):
             if z is None:
                 raise Unsupported("regex sub on formatted string", node)
             return GCODE_PARAMS(z)
+        if name == "match" and getattr(rx, "opaque_predicate", False):
+            interp.ctx.assumed.add("A2:a configured parameterPattern.match(parameters) is an opaque predicate")
+            return interp.ctx.bool("re.match", record=True)
         h = self.regex_handlers.get((rx.pattern, name)) or self.regex_handlers.get(("*", name))
         if h is not None:
             return h(interp, rx, args, kwargs, node)
